@@ -73,6 +73,7 @@ func (x *Exec) callValue(fr *Frame, st *State, site ssa.Instruction, cc *ssa.Cal
 		tname = typeKey(fnv.T)
 	}
 	if c := x.cs.forFuncType(tname, sig); c != nil {
+		x.selfVal = &fnv
 		x.applyContract(fr, st, site, "functype "+tname, c, sig, nil, args, nil, k)
 		return
 	}
@@ -160,6 +161,14 @@ func (x *Exec) callStatic(fr *Frame, st *State, site ssa.Instruction, callee *ss
 		h(x, fr, st, site, callee, args, k)
 		return
 	}
+	if tc := x.cs.forFunc(x.top); tc != nil && tc.UseBody != nil {
+		if _, nm := relName(callee); tc.UseBody[nm] && x.inlinable(callee) && !x.onStack(fr, callee) {
+			x.inlined[funcName(callee)] = true
+			nf := x.newFrame(callee, args, bindings, st, fr, site)
+			x.execFunc(nf, st, k)
+			return
+		}
+	}
 	if c := x.cs.forFunc(callee); c != nil && !c.Inline && callee != x.top {
 		x.applyContract(fr, st, site, funcName(callee), c, callee.Signature, callee, args, bindings, k)
 		return
@@ -220,6 +229,10 @@ func (x *Exec) invoke(fr *Frame, st *State, site ssa.Instruction, cc *ssa.CallCo
 		return
 	}
 	if h, ok := ifaceHandlers[iname]; ok {
+		h(x, fr, st, site, recv, args, k)
+		return
+	}
+	if h, ok := ifaceHandlers[cc.Method.FullName()]; ok {
 		h(x, fr, st, site, recv, args, k)
 		return
 	}
@@ -448,6 +461,16 @@ func (x *Exec) applyContract(fr *Frame, st *State, site ssa.Instruction, cname s
 		}
 		x.loopFrameAll(fr, st, site.Pos())
 	}
+	for _, g := range c.GhostMod {
+		if gv, ok := st.ghost[g]; ok {
+			nv := freshVal(gv.T, "g."+g)
+			x.assumeWF(st, nv)
+			st.ghost[g] = nv
+		} else {
+			x.fail("contract %s ghostmod: unknown ghost variable %s", cname, g)
+			return
+		}
+	}
 	rt := resultType(sig)
 	if c.MayPanic {
 		st2 := st.clone()
@@ -471,6 +494,9 @@ func (x *Exec) applyContract(fr *Frame, st *State, site ssa.Instruction, cname s
 	for _, e := range c.Ensures {
 		t, err := ce2.evalBool(e)
 		if err != nil {
+			if strings.Contains(err.Error(), "not a known closure") {
+				continue // clause about the identity of a closure that is opaque here: nothing assumed
+			}
 			x.fail("contract %s ensures %q: %v", cname, e.Text, err)
 			return
 		}
@@ -502,6 +528,10 @@ func (x *Exec) contractEnv(c *FuncContract, sig *types.Signature, callee *ssa.Fu
 		}
 	} else {
 		// functype / iface contracts: parameter names from the declaration
+		if x.selfVal != nil {
+			env["self"] = *x.selfVal
+			x.selfVal = nil
+		}
 		names := c.ParamNames
 		off := 0
 		if c.Recv != "" {
